@@ -95,11 +95,22 @@ def cache_table(fb):
     f = fb.find(ITP + "get_library")
     fields = [x["name"] for x in fb.adt("interpreter::interpreter::Interpreter")["variants"][0]["fields"]]
     rows = []
-    for scenario in ("first", "second", "instantiation-fails", "first-from-file", "file-not-found"):
+    fv = dict((n, i) for i, n in fb.variants("library_factory::GenericLibraryFactory"))
+    for scenario, fkind in [(sc, "AST") for sc in ("first", "second", "instantiation-fails", "first-from-file", "file-not-found")] + \
+            [("first", "Native"), ("second", "Native")]:
         name = Val("library-name")
         located = Enum(0, [name, some([3, 1])])
         located.name, located.adt = "Located", "error::Located"
-        factory, inst, E = Val("factory"), Val("instance"), Val("instantiation-error")
+        inst, E = Val("instance"), Val("instantiation-error")
+        # the factory as the enum it is (the instantiation code may look inside it): an AST factory carries an opaque library
+        # definition, a native one an opaque constructor
+        if fkind == "AST":
+            ldef = Enum(0, [Val("library-definition"), some([9, 1])])
+            ldef.name, ldef.adt = "Located", "error::Located"
+            factory = Enum(fv["AST"], [ldef])
+        else:
+            factory = Enum(fv["Native"], [Val("native-library-name"), Val("native-constructor")])
+        factory.name, factory.adt = fkind, "library_factory::GenericLibraryFactory"
         cache, factories = Map(), Map()
         if scenario not in ("first-from-file", "file-not-found"):
             factories.d[machine.key_of(name)] = (name, factory)
@@ -111,22 +122,33 @@ def cache_table(fb):
         selfv[fields.index("lib_loader")] = [factories]
         ev = []
 
-        def icpt(mc, c, a, tt, g):
+        def icpt(mc, c, a, tt, g, scenario=scenario, factory=factory, inst=inst, E=E, NF=NF, ev=ev):
             if c == ITP + "new_library":
                 ev.append(("instantiate", a[1] if len(a) > 1 else None))
                 return err(E) if scenario == "instantiation-fails" else ok(inst)
+            if c == ITP + "eval_library_definition":
+                # instantiating an AST factory, wherever that is written
+                ev.append(("instantiate", factory if contains_id(a[1] if len(a) > 1 else None, factory.fields[0].fields[0]) else a[1:]))
+                return err(E) if scenario == "instantiation-fails" else ok(inst)
+            if c.endswith("library::Library::new") or c.endswith("Library::<R>::new"):
+                # instantiating a native factory: Library::new(name, constructor())
+                ev.append(("instantiate", factory if contains_id(a[0], factory.fields[0]) else a))
+                return inst
+            if a and any(x is factory.fields[-1] for x in a[:1]) and ("Fn" in c or "call" in c):
+                return Val("native-definitions")
             if c == ITP + "file_library_factory":
                 ev.append(("file-lookup",))
                 return ok(factory) if scenario == "first-from-file" else err(NF)
             return NOT
         mc = Machine(fb, intercept=icpt, max_visits=8, budget=500)
+        key = scenario if fkind == "AST" else scenario + "/native-factory"
         try:
             res = mc.run(f, [selfv, located])
         except (absint.Stuck, absint.Loop) as e:
-            rows.append((scenario, {"stuck": str(e)}))
+            rows.append((key, {"stuck": str(e)}))
             continue
-        rows.append((scenario, {"result": res, "events": ev, "cached": [v for k, v in cache.d.values()], "inst": inst, "factory": factory, "error": E,
-                                "registered": len(factories.d), "not_found": NF}))
+        rows.append((key, {"result": res, "events": ev, "cached": [v for k, v in cache.d.values()], "inst": inst, "factory": factory, "error": E,
+                           "registered": len(factories.d), "not_found": NF}))
     return f, rows
 
 
@@ -137,6 +159,7 @@ def rule_cache(ctx, rule_single, rule_negative):
     decided = 0
     for scenario, d in rows:
         key = "get_library/%s" % scenario
+        scenario = scenario.split("/")[0]
         rule = rule_negative if scenario == "instantiation-fails" else rule_single
         if "stuck" in d:
             ctx.undecided(rule, key, "cannot follow get_library (%s)" % d["stuck"], where_of(f))
